@@ -83,9 +83,18 @@ def check(an, rep, tier):
             for val in bad + good:
                 v = {'Y': 'tt', pname: ('lit', val)}
                 r = an.run(q, 0, d, variant=v, extra_key=('dom', val))
-                raised = any(x[0] == q and x[1] == 'ValueError'
-                             for x in r.I.raises) and not r.returns
+                any_raise = any(x[0] == q and x[1] == 'ValueError'
+                                for x in r.I.raises)
+                raised = any_raise and not r.returns
                 returned = bool(r.returns)
+                if any_raise and returned:
+                    # the guard was not decided for this literal: both
+                    # continuations were explored
+                    rep.unknown('P-domain', q, '%s=%d at d=%d' % (pname, val,
+                                                                  d),
+                                'the rejection test is not decided by the '
+                                'abstract run')
+                    continue
                 if val in bad:
                     rep.add('P-domain', q, '%s=%d at d=%d is rejected'
                             % (pname, val, d), 'ok' if raised else 'violation',
@@ -111,13 +120,37 @@ def check(an, rep, tier):
                         any(isinstance(l, tuple) and l[0] == 'E'
                             for l in e.labels)]
                 if inpl:
-                    ok = len(stores) == 2 and not arrw
-                    rep.add('A-inplace', q, 'inplace=True at d=%d stores %s'
-                            % (d, sorted(stores)), 'ok' if ok else 'violation',
-                            '' if ok else 'expected list stores to exactly the '
-                            'two adjacent cores and no write into the '
-                            'caller\'s arrays; found %s / %d array writes'
-                            % (sorted(stores), len(arrw)))
+                    # which positions of the ARGUMENT list hold another object
+                    # after the call (decided on the abstract heap, however the
+                    # stores are spelt: two subscript stores, one slice store)
+                    from .. import interp as _interp
+                    I2 = _interp.Interp(prog, {
+                        'split': dict(specs.DEFAULT_SPLIT),
+                        'summary': dict(specs.DEFAULT_SUMMARY)})
+                    a2 = specs.build_args(v, d)
+                    before = list(a2['Y'].items)
+                    I2.run_function(prog.func(q), a2)
+                    after = a2['Y'].items
+                    if after is None or len(after) != len(before):
+                        changed = None
+                    else:
+                        changed = sorted(k for k in range(len(before))
+                                         if after[k] is not before[k])
+                    want = sorted({i0, i0 + 1}) if q.endswith('left') else \
+                        sorted({i0 - 1, i0})
+                    arrw2 = [e for e in I2.effects
+                             if e.kind == 'array-write' and
+                             any(isinstance(l, tuple) and l[0] == 'E'
+                                 for l in e.labels)]
+                    ok = changed == want and not arrw2
+                    rep.add('A-inplace', q, 'inplace=True at d=%d replaces '
+                            'cores %s' % (d, want),
+                            'ok' if ok else ('unknown' if changed is None
+                                             else 'violation'),
+                            '' if ok else 'expected the two adjacent cores %s '
+                            'of the argument to be replaced and no write into '
+                            'the caller\'s arrays; replaced %s / %d array '
+                            'writes' % (want, changed, len(arrw2)))
                     same_obj = r.result.k == 'list' and \
                         r.result.label == ('P', 'Y')
                     rep.add('A-inplace', q, 'inplace=True returns the '
